@@ -17,6 +17,7 @@ func init() {
 		Explanation: "Decides: R1 the compiled program is read-only after compilation — in code reachable from Change.Match, Change.Replace, patchRunner.Apply and File.Apply no store, map update or in-place sort targets memory rooted at a package-level variable or at a receiver/parameter/captured variable of a compiled-program type (Program, Change, Meta, every Matcher and Replacer implementation, the compilers; compilers created per metavariable capture are private and excepted), and no package-level variable is written anywhere on those paths; " +
 			"R2 fresh per-change state — data.New() is called inside Change.Match and engine.NewChangelog() inside the change loop of both runners; R3 no ambient nondeterminism — reachable module code calls no clock, randomness or environment function and starts no goroutine, and every range over a map either feeds a sort before its result is used or only fills another map (one listed exception: the order of diagnostics of a rejected patch); " +
 			"R4 fixed processing order — findFiles keys its de-duplication map by the absolute path and sorts by it with a strict less; R5 cross-file state of mainCmd.Run — no local variable or pointer-typed value created outside the per-file loop is written or handed to a mutating call inside it, other than the position table (token.FileSet, append-only and locked), the error accumulators, the logger and the runner. " +
+			"R1 also covers append: a slice held by the compiled program (or a re-slice of it such as m.results[:0]) is never appended to while matching/replacing — with spare capacity append writes into the shared backing array. " +
 			"NOT decided: data races inside third-party code, position-base effects of the shared FileSet on printing, concurrent Apply calls beyond R1 (absence of writes to shared state).",
 		Trusted:     append([]string{"token.FileSet is internally locked and append-only", "the go-intervals coroutine is deterministic"}, commonTrusted...),
 		Assumptions: commonAssumptions,
@@ -180,7 +181,14 @@ func c14FixedOrder(r *an.Run, rule string) {
 	}
 	// the map update key
 	n := 0
-	for _, in := range an.StoresIn(f) {
+	var allStores []ssa.Instruction
+	for _, g := range helperGroup(f, 2) {
+		if g.Name() == "findGoFiles" || g.Parent() != nil && g.Parent().Name() == "findGoFiles" {
+			continue // the walk of one argument (C15-R1)
+		}
+		allStores = append(allStores, an.StoresIn(g)...)
+	}
+	for _, in := range allStores {
 		mu, ok := in.(*ssa.MapUpdate)
 		if !ok {
 			continue
@@ -190,7 +198,7 @@ func c14FixedOrder(r *an.Run, rule string) {
 	}
 	r.Check(n == 1, short(f)+"|dedupe", f.Pos(), "one de-duplication map (found %d updates)", n)
 	// sort.Slice with a less comparing .Absolute with <
-	sorts := an.CallsTo(f, "sort.Slice", "sort.SliceStable")
+	sorts := callsToGroup(f, "sort.Slice", "sort.SliceStable")
 	if r.Check(len(sorts) == 1, short(f)+"|sorted", f.Pos(), "the result is sorted (found %d sort call(s))", len(sorts)) {
 		var less *ssa.Function
 		switch v := sorts[0].Common().Args[1].(type) {
@@ -210,8 +218,19 @@ func c14FixedOrder(r *an.Run, rule string) {
 			r.Check(good, short(less)+"|by-absolute", less.Pos(), "files are ordered by absolute path with a strict comparison")
 		}
 		// what is returned is the sorted slice, and the sort comes after the map was drained
+		site := siteIn(f, sorts[0])
 		for _, ret := range an.Returns(f) {
-			r.Check(sorts[0].Block().Dominates(ret.Block()), short(f)+"|sort-before-return", ret.Pos(), "the list is sorted before it is returned")
+			if len(ret.Results) > 0 && an.IsNilConst(ret.Results[0]) {
+				continue
+			}
+			r.Check(site != nil && (site.Block() == ret.Block() || site.Block().Dominates(ret.Block())), short(f)+"|sort-before-return", ret.Pos(), "the list is sorted before it is returned")
+		}
+		if g := sorts[0].Parent(); g != f {
+			// the sort lives in a helper: the helper returns after sorting, and what it sorts is what it returns
+			for _, ret := range an.Returns(g) {
+				r.Check(sorts[0].Block() == ret.Block() || sorts[0].Block().Dominates(ret.Block()), short(g)+"|sort-before-return", ret.Pos(), "the helper sorts before it returns")
+				r.Check(len(ret.Results) > 0 && an.Root(ret.Results[0]) == an.Root(sorts[0].Common().Args[0]) || derivesFrom(sorts[0].Common().Args[0], ret.Results[0]), short(g)+"|returns-what-it-sorted", ret.Pos(), "the helper returns the slice it sorted")
+			}
 		}
 	}
 }
